@@ -140,4 +140,14 @@ def eu_offset(u):
 
 
 def item_values(items):
+    """native reading for replayed witnesses: the items are given as {"awaitable": bool, "value": object} (an awaitable
+    item is a coroutine that returns `value`, a plain item is `value` itself)"""
+    if all(isinstance(d, dict) and "awaitable" in d for d in items):
+        return [d["value"] for d in items]
     raise NotImplementedError("ghost item_values has no native reading (awaitables are consumed by the call)")
+
+
+def count_awaitables_before(items, k):
+    """ghost: number of awaitable items among the first k items"""
+    import inspect
+    return sum(1 for x in list(items)[:k] if inspect.isawaitable(x))
